@@ -54,7 +54,8 @@ def sib_export(ctx: Ctx) -> List[Ob]:
     for q, flag in specs:
         f = m.func(q)
         kf = _key_func(ctx, f)
-        O(f, f"{q}: key(n) = n._data_id if unique_nodes else n._node_id", (kf is not None) if f.nested else None,
+        cand = [g for g in f.nested if len(g.positional_params()) == 1 and any(isinstance(x, ast.Attribute) and x.attr in ("_data_id", "data_id") for x in ast.walk(g.node))]
+        O(f, f"{q}: key(n) = n._data_id if unique_nodes else n._node_id", (kf is not None) if cand else None,
           "one graph node per distinct data_id, or per tree node when unique_nodes is off")
         kname = kf.name if kf else "_no_key_function_"
         loops = _loops_over(f, "node")
@@ -125,7 +126,7 @@ def sib_export(ctx: Ctx) -> List[Ob]:
             why_e = f"edges are emitted under {ts}"
         else:
             why_e = f"{len(eys)} yields in the edge loop"
-            ok = False if eys else None
+            ok = None if eys else False
         O(f, f"{q}: the edge loop skips exactly `not {flag} and n._parent is node` (identity) and emits one edge statement per remaining node", ok,
           why_e + ": excluding the root omits the root node and the edges leaving it and nothing else (edges leaving an inner clone of the start node stay)", el)
         ok = None
@@ -375,7 +376,7 @@ def render(ctx: Ctx) -> List[Ob]:
         ok_own = own_tab == {"kids-last": 4, "kids-other": 5, "leaf-last": 2, "leaf-other": 3} and own_guard_ok
         rets = [c for c in exit_cases(ctx, f, ("return",)) if c.value is not None]
         parts = apps[0][1]["$parts"]
-        if ok_own and not (len(rets) == 1 and match(f"''.join({parts})", rets[0].value) is not None):
+        if ok_own and not (rets and all(match(f"''.join({parts})", r_.value) is not None for r_ in rets)):
             ok_own = False
         why_a, why_o = f"ancestor segments {anc_tab}", f"own connector {own_tab}"
     else:
@@ -475,14 +476,21 @@ def render(ctx: Ctx) -> List[Ob]:
         for c in tl:
             ts = cond_texts(c.conds)
             ok = ok and "title" in ts and not_after(ctx, tf, c.stmt, walk[0].stmt)
-        vals = {norm(c.value): cond_texts(c.conds) for c in tl}
-        if len(tl) == 1:
-            ok = ok and norm(tl[0].value) in ("f'{self}' if title is True else f'{title}'", "str(self) if title is True else str(title)")
+        vals = {}
+        for c in tl:
+            if isinstance(c.value, ast.Name):
+                # the line is prepared in a local: one case per reaching assignment, with that assignment's conditions
+                for n_, e_ in find(f"{c.value.id} = $$v", tf.node):
+                    vals[norm(e_["$$v"])] = cond_texts(path_conds(ctx, tf, n_))
+            else:
+                vals[norm(c.value)] = cond_texts(c.conds)
+        if len(vals) == 1:
+            ok = ok and list(vals)[0] in ("f'{self}' if title is True else f'{title}'", "str(self) if title is True else str(title)")
         else:
             ok = ok and any("title is True" in t_ and v_ in ("f'{self}'", "str(self)") for v_, t_ in vals.items()) and any(
                 "not (title is True)" in t_ and v_ in ("f'{title}'", "str(title)", "title") for v_, t_ in vals.items())
         wc = walk[0].value
-        if isinstance(wc, ast.Call) and norm(wc.func) == "self._root.format_iter":
+        if isinstance(wc, ast.Call) and norm(resolve_expr(ctx, tf, walk[0].stmt, wc.func)) == "self._root.format_iter":
             kw = {k.arg: norm(resolve_expr(ctx, tf, walk[0].stmt, k.value)) for k in wc.keywords}
             ok = ok and kw.get("add_self") in ("title is not False", "not title is False") and kw.get("repr") == "repr" and kw.get("style") == "style" and not walk[0].conds
         else:
@@ -574,19 +582,37 @@ def diff(ctx: Ctx) -> List[Ob]:
         O(cmp_, f"DC.{member} marks copies of children of the {'first' if src == p0 else 'second'} tree's node", ok,
           f"the mark must sit on result nodes copied from `{src}.children`")
     # one-sided children of the second node: by data_id against a set local to this call
-    ids = one("$ids.add($c._data_id)", cmp_.node)
-    ok = ids is not None
-    if ok:
-        I = {"$ids": ids[1]["$ids"]}
-        local_init = [n for n in cmp_.body if match("$ids = set()", n, I) is not None]
-        O(cmp_, "the set of first-side data_ids is created per compare() call (not shared between recursion levels)", len(local_init) == 1,
-          "a set shared across the recursion hides second-tree children whose label occurred in an earlier branch")
-        lp1 = [n for n in iter_own(cmp_.node) if isinstance(n, ast.For) and norm(n.iter) == f"{p1}.children"]
-        ok = len(lp1) == 1 and isinstance(lp1[0].body[0], ast.If) and match(f"{norm(lp1[0].target)}._data_id not in $ids", lp1[0].body[0].test, I) is not None
-        # the ids come from the loop over the first node's children
-        lp0 = [n for n in iter_own(cmp_.node) if isinstance(n, ast.For) and f"{p0}.children" in norm(n.iter)]
-        ok = ok and len(lp0) == 1 and any(x is ids[0] for x in ast.walk(lp0[0]))
-    O(cmp_, "children only in the second node are found by data_id against the first node's children", ok, "added children are those whose data_id the first side lacks")
+    from .util import path_conds as _pc, reaching_values as _rv
+
+    lp1 = [n for n in iter_own(cmp_.node) if isinstance(n, ast.For) and norm(n.iter) in (f"{p1}.children", f"{p1}._children")]
+    ok = None
+    if len(lp1) == 1 and isinstance(lp1[0].target, ast.Name):
+        c1v = lp1[0].target.id
+        adds_ = [c for c in ast.walk(lp1[0]) if isinstance(c, ast.Call) and match(f"{p2}.add({c1v})", c) is not None]
+        if len(adds_) == 1:
+            tests = [(e_, pol) for e_, pol in _pc(ctx, cmp_, adds_[0]) if isinstance(e_, ast.Compare) and isinstance(e_.ops[0], ast.In) and norm(e_.left) == f"{c1v}._data_id"]
+            if len(tests) == 1 and tests[0][1] is False and isinstance(tests[0][0].comparators[0], ast.Name):
+                ids = tests[0][0].comparators[0].id
+                inits = [n_ for n_, _e in find(f"{ids} = $$v", cmp_.node)]
+                grows = find(f"{ids}.add($$x)", cmp_.node)
+                # the set is built in this call from the data_ids of the first node's children, before the scan of the second
+                if len(inits) == 1:
+                    v = match(f"{ids} = $$v", inits[0])["$$v"]
+                    comp_ok = isinstance(v, ast.SetComp) and len(v.generators) == 1 and norm(v.generators[0].iter) in (f"{p0}.children", f"{p0}._children") \
+                        and norm(v.elt) == f"{norm(v.generators[0].target)}._data_id" and not v.generators[0].ifs
+                    inc_ok = norm(v) == "set()" and len(grows) == 1 and any(
+                        isinstance(l_, ast.For) and f"{p0}.children" in norm(l_.iter) and any(grows[0][0] is x for x in ast.walk(l_)) and not _pc(ctx, cmp_, grows[0][0])[0:0]
+                        and not [a_ for a_, _p in _pc(ctx, cmp_, grows[0][0]) if any(a_ is y or getattr(a_, "_orig", None) is y for y in ast.walk(l_))]
+                        and norm(grows[0][1]["$$x"]).endswith("._data_id") for l_ in iter_own(cmp_.node))
+                    ok = (comp_ok or inc_ok) and any(inits[0] is s_ for s_ in cmp_.body)
+                    O(cmp_, "the set of first-side data_ids is created per compare() call (not shared between recursion levels)", any(inits[0] is s_ for s_ in cmp_.body),
+                      "a set shared across the recursion hides second-tree children whose label occurred in an earlier branch")
+                else:
+                    ok = False
+            elif tests:
+                ok = False
+    obs.append(ctx.tri("DIFF", ["C11"], cmp_, "children only in the second node are found by data_id against the first node's children", None, ok,
+                       "added children are those whose data_id the first side lacks"))
     fc = [c for c in ast.walk(cmp_.node) if isinstance(c, ast.Call) and norm(c.func) == "_find_child"]
     O(cmp_, "peers of first-tree children are searched among the second node's children", len(fc) == 1 and norm(fc[0].args[0]) == f"{p1}.children")
     om = [c for c in ast.walk(cmp_.node) if isinstance(c, ast.Call) and isinstance(c.func, ast.Attribute) and c.func.attr == "set_meta"
